@@ -264,6 +264,13 @@ def thm_both(s, hs, he):
     fs3.handler = _Handler([hs, he], {})
     info3 = fs3.get_info(fs3.get_filename(s, fill={"satname": "x"}))
     ensures(info3.times[0] == hs, info3.times[1] == he, info3.attr == {}, id="info_via='handler' ignores the file name")
+    # a fixed file duration and a handler that knows the start only: the end is the overriding start + time_coverage
+    requires(datetime(9999, 12, 31, 17, 59) - hs >= timedelta(0))
+    fs4 = FileSet(path="/data/{satname}/{year}{month}{day}.nc", info_via="both", time_coverage="6 hours", name="verif4")
+    fs4.handler = _Handler([hs, None], {})
+    info4 = fs4.get_info(fs4.get_filename(s, fill={"satname": "x"}))
+    ensures(info4.times[0] == hs, id="time_coverage + handler start only: the handler start overrides the file name")
+    ensures(info4.times[1] - info4.times[0] == timedelta(hours=6), id="... and the end is that start + time_coverage")
 
 
 @theorem(P, "errors", s=_fresh_dt("s", 2))
